@@ -246,7 +246,7 @@ def c12(tier, seed):
             nm = ("max%d" % (K - 1)) if K else str(UI)
             S.append(Spec("c12_update_%s_n%d_ui%s_o%d_w%d" % (sk_, N, nm, OL, NL), "c12::update_contract::<%s, %d, %d, %d, %d, %d>()" % (cs, N, UI, K, OL, NL), 120, "G", "A",
                           shape=dict(contract="update_signature one-step", entry="update_signature", suite=sk_, n=N, update_index=("usize::MAX-%d" % (K - 1)) if K else UI, old_len=OL, new_len=NL), replay="op",
-                          covers_required=(K == 0 and UI < N)))
+                          covers_required=(K == 0 and UI < N), features="prog"))
     return S
 
 
@@ -255,7 +255,7 @@ def c03_specs(tier, seed, edits, tag):
     th = tier == "thorough"
     # (L, disclosed mask, permutation, header shape, ph shape)
     # shapes with at most ONE undisclosed message: with two or more the T2 identity does not close within the caps
-    base = [(0, 0, 0, 0, 0), (1, 0, 0, 2, 2), (1, 1, 0, 0, 1), (2, 1, 1, 2, 0), (2, 2, 2, 0, 2), (2, 3, 1, 3, 3), (3, 5, 0, 0, 0), (3, 6, 0, 2, 2), (3, 3, 1, 1, 1)]
+    base = [(0, 0, 0, 0, 0), (1, 0, 0, 2, 2), (1, 1, 0, 0, 1), (2, 1, 1, 2, 0), (2, 2, 2, 0, 2), (2, 3, 1, 3, 3), (3, 5, 0, 0, 0), (3, 3, 1, 1, 1)]
     if th:
         base = [(L, m, (L + m) % 3, (L + m) % 4, (2 * L + m) % 4) for L in range(0, 4) for m in range(0, 1 << L) if L - bin(m).count('1') <= 1]
     for (L, M, P, H, PHs) in base:
@@ -284,4 +284,71 @@ def c04(tier, seed):
     return c03_specs(tier, seed, [1, 2, 3, 4], "c04")
 
 
-PROPS = {"C01": c01, "C02": c02, "C03": c03, "C04": c04, "C08": c08, "C09": c09, "C10": c10, "C12": c12}
+def c05_specs(tier, seed, edits, tag):
+    S = []
+    th = tier == "thorough"
+    shapes = [(0, 0, 0), (1, 0, 2), (0, 1, 1)] + ([(1, 1, 2), (2, 1, 0), (1, 2, 3), (0, 2, 2)] if th else [])
+    for (L, M, H) in shapes:
+        for E in edits:
+            segs = [0]
+            if E == 1:
+                segs = [0, 1, M + 2] + ([2] if M >= 1 else [])
+            if E == 2 and M == 0:
+                continue
+            if E == 5 and L == 0:
+                continue
+            if E == 4 and H < 2:
+                continue
+            for SG in segs:
+                for sk_, cs in (suites(tier, seed, tag) if th else one_suite(tier, seed, "%s%d%d%d%d" % (tag, L, M, E, SG))):
+                    S.append(Spec("%s_issue_%s_L%d_M%d_h%d_e%d_s%d" % (tag, sk_, L, M, H, E, SG),
+                                  "p05::issuance_flow::<%s, %d, %d, %d, %d, %d, %d>()" % (cs, L, M, H, E, SG, 112 + 32 * M), 100, "G", "A",
+                                  shape=dict(contract="commit -> blind_sign -> verify_blind_sign", suite=sk_, L=L, M=M, header_shape=H, edit=E, segment=SG),
+                                  replay="alg", features="fixedrand"))
+    return S
+
+
+def bproof_specs(tier, seed, edits, tag):
+    S = []
+    th = tier == "thorough"
+    for (L, M, H) in [(0, 0, 0), (1, 0, 2), (0, 1, 1), (1, 1, 0)] + ([(2, 1, 2), (1, 2, 3)] if th else []):
+        for E in edits:
+            if E == 2 and L == 0:
+                continue
+            if E == 3 and M == 0:
+                continue
+            if E == 4 and (L == M):
+                continue
+            for sk_, cs in (suites(tier, seed, tag) if th else one_suite(tier, seed, "%sp%d%d%d" % (tag, L, M, E))):
+                S.append(Spec("%s_bproof_%s_L%d_M%d_h%d_e%d" % (tag, sk_, L, M, H, E), "p05::blind_proof_flow::<%s, %d, %d, %d, %d>()" % (cs, L, M, H, E), 100, "G", "A",
+                              shape=dict(contract="blind_proof_gen -> blind_proof_verify", suite=sk_, L=L, M=M, header_shape=H, edit=E, disclosed="all"),
+                              replay="alg", features="fixedrand"))
+    return S
+
+
+def c05(tier, seed):
+    return c05_specs(tier, seed, [0], "c05") + bproof_specs(tier, seed, [0], "c05")
+
+
+def c06(tier, seed):
+    # blind-proof edits that re-assign generators (wrong signer-message count, swapped index lists) are not
+    # registered: in the model group the generators are known multiples of one element, so the solver finds
+    # scalar coincidences that make the verifier's challenge input equal (a false alarm in the model; in the
+    # real group it needs a discrete-log relation between generators)
+    return c05_specs(tier, seed, [1, 2, 3, 4, 5], "c06") + bproof_specs(tier, seed, [3], "c06")
+
+
+def c07(tier, seed):
+    S = []
+    th = tier == "thorough"
+    for (L, M, SEC) in [(0, 0, "false"), (1, 0, "false"), (1, 1, "false"), (2, 1, "false"), (1, 0, "true"), (2, 2, "true")] + ([(2, 0, "false"), (3, 5, "false"), (2, 1, "true"), (3, 3, "false")] if th else []):
+        for sk_, cs in (suites(tier, seed, "c07") if th else one_suite(tier, seed, "c07%d%d" % (L, M))):
+            S.append(Spec("c07_proof_roles_%s_L%d_d%d_%s" % (sk_, L, M, SEC[0]), "p07::proof_roles::<%s, %d, %d, %s>()" % (cs, L, M, SEC), 100, "G", "A",
+                          shape=dict(contract="proof_gen draw roles", suite=sk_, L=L, disclosed_mask=M, two_generations=SEC), replay="alg", features="fixedrand"))
+    # commitment roles and draw counts are asserted inside the C05 issuance flow (p05): reuse its honest shapes
+    for sp in c05_specs(tier, seed, [0], "c07c"):
+        S.append(sp)
+    return S
+
+
+PROPS = {"C01": c01, "C05": c05, "C07": c07, "C06": c06, "C02": c02, "C03": c03, "C04": c04, "C08": c08, "C09": c09, "C10": c10, "C12": c12}
